@@ -148,7 +148,7 @@ func cmdFunc(args []string) int {
 						bad++
 					}
 					if !good || *verbose {
-						fmt.Printf("  %-70s %-8s %-12s %.2fs  %s\n", o.Name, o.Status, o.Backend, o.Seconds, o.Text)
+						fmt.Printf("  %-70s %-8s %-12s %.2fs  %s  [%s:%d]\n", o.Name, o.Status, o.Backend, o.Seconds, o.Text, filepath.Base(o.Pos.Filename), o.Pos.Line)
 						if !good && o.Model != "" {
 							fmt.Printf("      %s\n", firstLines(o.Model, 12))
 						}
